@@ -14,6 +14,8 @@ for log in sys.argv[1:]:
         res[k] = dict(res.get(k, {}), **r)
 for d in sorted(glob.glob('/tmp/wt*/seeded/C*_*')):
     mid = os.path.basename(d)
+    if not all(os.path.exists(os.path.join(d, f)) for f in ('patch.diff', 'demo.py', 'meta.json')):
+        continue       # a sub-agent is still writing this one
     dst = os.path.join('/verif/seeded', mid)
     os.makedirs(dst, exist_ok=True)
     for f in ('patch.diff', 'demo.py'):
